@@ -202,7 +202,7 @@ fn scenario_candidates(sc: &Scenario, strat: &StratSpec) -> Vec<(Scenario, Strat
             let mut changed = false;
             let mut i = 0;
             for_each_reg(&mut c.regs, &mut i, t, &mut |r| match r {
-                Reg::Sys { deps, reads, writes, hint, name, expect } => match variant {
+                Reg::Sys { deps, reads, writes, hint, name, expect, .. } => match variant {
                     0 if !deps.is_empty() => {
                         deps.clear();
                         changed = true;
